@@ -594,7 +594,15 @@ def build_plain(case) -> bytes:
     return bio.getvalue() + b"\0" * (512 * case["trail_blocks"])
 
 
+SAMPLE = {b"test": None, b"test/file1": b"a" * 512 + b"\n", b"test/file2": b"b" * 1024 + b"\n", b"test/file3": b"c" * 2048 + b"\n",
+          b"test/subdir": None, b"test/subdir/file4": b"f" * 2048 + b"\n"}
+
+
 def case_bytes(case):
+    if case["stream"] == "sample":              # the real vmtar sample of the repository's test-suite
+        with open(os.path.join(core.REPO, "tests", "data", "test.vgz"), "rb") as fh:
+            data = fh.read()
+        return [(0, "lit", data)], data
     if case["stream"] == "plain":
         data = build_plain(case)
         return [(0, "lit", data)], data
@@ -793,7 +801,7 @@ class VmTarSuite(Suite):
 
     def generate(self, rng, tier):
         n = 1000 if tier == "thorough" else 90
-        cases = []
+        cases = [{"stream": "sample", "access": a} for a in ("open", "gz", "iter", "visortarfile")]
         for i in range(n):
             k = rng.weighted([("wf", 5), ("long", 2), ("malformed", 3), ("plain", 1)])
             if k == "wf":
@@ -968,6 +976,15 @@ class VmTarSuite(Suite):
                 elif [m.get("x") for m in rv["members"]] != [m.get("x") for m in rs["members"]]:
                     fs.append(Finding("impl_vs_spec", "non-visor archive extracted differently from the standard reader",
                                       sig + ":plain-bytes"))
+        if stream == "sample":
+            if impl_outcome(rv) != "ok":
+                fs.append(Finding("impl_vs_spec", f"the repository's vmtar sample is not readable: {rv.get('open') or rv.get('list')}",
+                                  sig + ":sample"))
+            else:
+                got = {m["name"]: (m.get("x") if isinstance(m.get("x"), bytes) else None) for m in rv["members"]}
+                if got != SAMPLE or not all(m["visor"] for m in rv["members"]):
+                    fs.append(Finding("impl_vs_spec", f"the repository's vmtar sample lists/extracts differently from its documented "
+                                      f"content: {sorted(got)}", sig + ":sample"))
         if stream == "plain" and impl_outcome(rv) == "ok":
             # and the standard reader returns what was written
             want = [(unhx(m["name"]), m["size"]) for m in case["members"]]
@@ -1026,6 +1043,8 @@ class VmTarSuite(Suite):
         return fs
 
     def nontrivial(self, case, impl_res, coq_val):
+        if case["stream"] == "sample":
+            return ("sample", case["access"])
         if case["stream"] not in ("wf", "long"):
             return None
         ms = [m for m in case["items"] if m.get("payload") is None and has_data_type(spec_type(m)) and m["size"] > 0]
@@ -1038,6 +1057,8 @@ class VmTarSuite(Suite):
 
     def dist(self, case):
         d = {"stream": case["stream"], "access": case["access"]}
+        if case["stream"] == "sample":
+            return d
         if case["stream"] == "plain":
             d["fmt"] = case["fmt"]
             d["members"] = min(len(case["members"]), 10)
